@@ -240,6 +240,13 @@ def one_pass(ctx: CaseCtx, vtf, inputs: Dict[Tuple[int, Any, int], bytes], phase
         want_meta['version'] = list(save_kw['version'])
     want_res = resources_of(vtf)
     want_sheet = sheet_of(vtf)
+    # versions before 7.3 have no resource table: the resources / particle sheet a texture holds cannot be written.  An
+    # explicit refusal (ValueError) is acceptable; otherwise the file must be written and everything else must round-trip.
+    eff_minor = save_kw['version'][1] if save_kw.get('version') else vtf.version[1]
+    legacy = eff_minor < 3 and bool(want_res or want_sheet)
+    if legacy:
+        want_res, want_sheet = {}, {}
+        run.count('legacy_version_with_resources')
     built_count = vtf.mipmap_count
     levels = table_levels(vtf)
 
@@ -250,6 +257,9 @@ def one_pass(ctx: CaseCtx, vtf, inputs: Dict[Tuple[int, Any, int], bytes], phase
     try:
         vtf.save(buf, **save_kw)
     except Exception as exc:
+        if legacy and isinstance(exc, ValueError):
+            run.count('legacy_version_refused_resources')
+            return None, None
         ctx.bad('save-raises', f'VTF.save raised {type(exc).__name__}: {exc}', phase=phase)
         return None, None
     run.count('saves')
@@ -805,7 +815,7 @@ def main(run, shard=(0, 1)) -> None:
     probe.report(run)
     probe.check_reached(run)
     run.extra['formats'] = list(G.WRITABLE)
-    run.require('saves', 'reads', 'real_file_passes', 'repeated_saves', 'resaves', 'frames_compared', 'thumbnails_compared', 'generated_mipmaps_checked', 'nearest_filter_regenerations',
+    run.require('saves', 'reads', 'real_file_passes', 'repeated_saves', 'legacy_version_with_resources', 'resaves', 'frames_compared', 'thumbnails_compared', 'generated_mipmaps_checked', 'nearest_filter_regenerations',
                 'index_probes', 'resource_sets_compared', 'sheets_compared', 'one_wide_textures', 'cubemaps_with_sphere',
                 'cubemaps_without_sphere', 'volumetric_textures', 'reduced_precision_main_format', 'handmade_files_read',
                 'sweep_images')
